@@ -70,6 +70,46 @@ def proj_section(sv, rec, top=False):
     return out
 
 
+# the real tree in the specification's own representation (for TLC) -------------
+def spec_value(v, child, rec):
+    kind, wild = child["kind"], child["name"] == "+"
+    bad = {"t": "bad", "repr": repr(v)[:100]}
+    if kind == "key" and not wild:
+        return {"t": "none"} if v is None else {"t": "v", "v": repr(v)}
+    if kind == "multikey" and not wild:
+        return {"t": "list", "items": [repr(x) for x in v]} if isinstance(v, list) else bad
+    if kind == "key":
+        return {"t": "map", "items": [[k, repr(x)] for k, x in v.items()]} if isinstance(v, dict) else bad
+    if kind == "multikey":
+        if isinstance(v, dict) and all(isinstance(x, list) for x in v.values()):
+            return {"t": "mapl", "items": [[k, [repr(y) for y in x]] for k, x in v.items()]}
+        return bad
+    if kind == "section":
+        return {"t": "none"} if v is None else {"t": "sec", "v": spec_tree(v, rec)}
+    return {"t": "secs", "items": [spec_tree(x, rec) for x in v]} if isinstance(v, list) else bad
+
+
+def spec_tree(sv, rec, top=False):
+    if isinstance(sv, dts.Wrapped):
+        return {"wrapped": spec_tree(sv.section, rec, top)}
+    if not hasattr(sv, "getSectionAttributes"):
+        return {"type": "~bad~", "name": "", "attrs": []}
+    tname = sv.getSectionType() or ""
+    T = rec["top"] if top else rec["types"].get(tname)
+    if T is None or T.get("abstract"):
+        return {"type": tname, "name": sv.getSectionName() or "", "attrs": [["~unknown-type~", {"t": "bad"}]]}
+    attrs = []
+    have = set(sv.getSectionAttributes())
+    for c in T["children"]:
+        if c["attr"] in have:
+            attrs.append([c["attr"], spec_value(getattr(sv, c["attr"]), c, rec)])
+        else:
+            attrs.append([c["attr"], {"t": "missing"}])
+    for a in sorted(have - {c["attr"] for c in T["children"]}):
+        attrs.append([a, {"t": "undeclared"}])
+    return {"type": tname, "name": sv.getSectionName() or "", "attrs": attrs}
+
+
 # canonical form of the specification's tree (JSON from TLC) -------------------
 def canon_value(v):
     t = v["t"]
